@@ -143,7 +143,7 @@ func init() {
 			size := r.P.Field("dkv/sst", "Table", "size")
 			okSize := false
 			inspect(tw.Decl.Body, func(nd ast.Node) bool {
-				if as, ok := nd.(*ast.AssignStmt); ok && as.Tok == token.ADD_ASSIGN && len(as.Lhs) == 1 && prog.SelField(tw.Pkg.TypesInfo, as.Lhs[0]) == size && r.exprCalls(tw.Pkg.TypesInfo, as.Rhs[0], wf.Obj) {
+				if as, ok := nd.(*ast.AssignStmt); ok && as.Tok == token.ADD_ASSIGN && len(as.Lhs) == 1 && prog.SelField(tw.Pkg.TypesInfo, as.Lhs[0]) == size && (r.exprCalls(tw.Pkg.TypesInfo, as.Rhs[0], wf.Obj) || r.exprCalls(tw.Pkg.TypesInfo, deref(tw.Pkg.TypesInfo, stripConv(tw.Pkg.TypesInfo, as.Rhs[0])), wf.Obj)) {
 					okSize = true
 				}
 				return true
@@ -310,7 +310,7 @@ func init() {
 					}
 				case add:
 					r.Site(call.Pos(), "filter.Add argument")
-					if len(call.Args) != 1 || !strings.HasSuffix(types.ExprString(call.Args[0]), ".Key()") {
+					if len(call.Args) != 1 || !strings.HasSuffix(types.ExprString(deref(info, call.Args[0])), ".Key()") {
 						r.Fail(f.Name()+":filter-arg", call.Pos(), nil, "the bloom filter must be fed the entry's key")
 					}
 				}
